@@ -50,6 +50,11 @@ type Node struct {
 func (s *Node) Merge(other *Node) {
 	s.Kinds = s.Kinds.Add(other.Kinds...)
 
+	// A kind that is present again can no longer be tracked as deleted
+	for _, otherKind := range other.Kinds {
+		s.DeletedKinds = s.DeletedKinds.Remove(otherKind)
+	}
+
 	for _, otherKind := range other.AddedKinds {
 		s.DeletedKinds = s.DeletedKinds.Remove(otherKind)
 	}
